@@ -582,10 +582,18 @@ def wasmStrConcat (a b : List Nat) : List Nat :=
 /-- TypeScript `([, a], [, b]) => [1, a + b]` -/
 def tsStrConcat (a b : List Nat) : List Nat := a ++ b
 
-/-- loop of `$__Str$eq` (`libsam.wat:10-29`) after the reference and length tests -/
-def wasmStrEqLoop : List Nat → List Nat → Bool
-  | x :: xs, y :: ys => if x ≠ y then false else wasmStrEqLoop xs ys
+/-- `array.get_s` / `array.get_u` of one byte of a string -/
+def readByte (signed : Bool) (b : Nat) : Int := if signed ∧ b ≥ 128 then (b : Int) - 256 else b
+
+/-- loop of `$__Str$eq` (`libsam.wat:10-29`) after the reference and length tests, with the two
+operands read the way the code reads them (`a` with `signedA`, `b` with `signedB`) -/
+def strEqLoopWith (signedA signedB : Bool) : List Nat → List Nat → Bool
+  | x :: xs, y :: ys =>
+    if readByte signedA x ≠ readByte signedB y then false else strEqLoopWith signedA signedB xs ys
   | _, _ => true
+
+/-- … with the signedness flags regenerated from `libsam.wat` on every run -/
+def wasmStrEqLoop (a b : List Nat) : Bool := strEqLoopWith strEqSignedA strEqSignedB a b
 
 def wasmStrEq (same : Bool) (a b : List Nat) : Int :=
   if same then 1 else if a.length ≠ b.length then 0 else b2i (wasmStrEqLoop a b)
